@@ -648,9 +648,17 @@ def leg_b_wide(S, mods, RPmods, np, R, n_random, codes=None, which=('user', 'p',
                 diff = None
         fam = stratified_words(code, np)
         mine = fam[S.part::S.parts]
+        label = 'all sign x exponent-field x boundary-mantissa words'
+        if code == 50:
+            # 97% of the family has no float64 value and cannot be asserted: keep all assertable words and 1/64 of the rest
+            rep = R.np_lis50(mine)[1]
+            n_non = int((~rep).sum())
+            S.rec.add('LIS50_stratified_words_without_float64_value_skipped', n_non - (n_non + 63) // 64)
+            mine = np.concatenate([mine[rep], mine[~rep][::64]])
+            label = 'all exponent-field x boundary-mantissa words that have a float64 value (+1/64 of the others)'
         if S.under:
             mine = mine[::max(1, len(mine) // 4000)]
-        run_fixed(S, code, mine, ents, 'all sign x exponent-field x boundary-mantissa words', True, np, R, diff)
+        run_fixed(S, code, mine, ents, label, True, np, R, diff)
         if code == 'ISINGL' and not S.under:
             leg_bit(S, mine, RPmods, np, R)
         rnd = random_words(code, S, n_random, np, 'b')
